@@ -138,6 +138,18 @@ def history_jobs(cgs, keys):
                                  ops=[A(x) for x in od] + [dict(k="rm", text="", id="pf", id2="")],
                                  universe=["A", "B", "pf", "pr", "ps"]))
                 n += 1
+            # the same oriented pair is looked up again after it has come to denote something else:
+            # the segment is renamed and another segment takes its name, then the complement form is
+            # offered again (now a new edge), a path over it, and the old link is removed
+            ren = dict(k="ren", text="", id="A", id2="X", n=0)
+            for od in ([*segs, l, lc, ren, "S\tA\t*", lc, ps], [*segs, l, pf, ren, "S\tA\t*", l, pr],
+                       [*segs, lc, pr, ren, "S\tA\t*", ps, l]):
+                ops = [x if isinstance(x, dict) else A(x) for x in od]
+                ops.append(dict(k="disc", text=l.replace("\tA\t", "\tX\t"), id="", id2=""))
+                ops.append(A(lc))
+                jobs.append(dict(id="lh-%d" % n, kind="link", cfg=dict(version="gfa1", vlevel=1), ops=ops,
+                                 universe=["A", "B", "X", "pf", "pr", "ps"]))
+                n += 1
     return jobs
 
 
